@@ -471,6 +471,21 @@ func c14(c *report.Check) {
 	}
 	sort.Strings(keys)
 	var observations []map[string]any
+	// one defect, one signature: groups that agree on (error, failure set, affected methods)
+	// are merged over the (mode, wrap) variants; "all" only when every judged variant fails
+	type merged struct {
+		first    *group
+		variants []string
+		ms       string
+	}
+	judged := 0
+	for _, w := range wraps {
+		if w.Verdict {
+			judged++
+		}
+	}
+	mergedGroups := map[string]*merged{}
+	var mkeys []string
 	for _, k := range keys {
 		g := groups[k]
 		ms := "all"
@@ -481,13 +496,31 @@ func c14(c *report.Check) {
 			observations = append(observations, map[string]any{"mode": g.cs.Mode, "error": g.cs.Error, "wrap": g.cs.Wrap, "observed": g.fails, "methods": ms})
 			continue
 		}
-		sig := fmt.Sprintf("c14:%s:%s:%s:methods=%s", g.cs.Error, g.cs.Wrap, g.fails, ms)
-		if g.cs.Mode != "memory" {
-			sig = fmt.Sprintf("c14:%s:%s:%s:%s:methods=%s", g.cs.Mode, g.cs.Error, g.cs.Wrap, g.fails, ms)
+		mk := g.cs.Error + "|" + g.fails + "|" + ms
+		m := mergedGroups[mk]
+		if m == nil {
+			m = &merged{first: g, ms: ms}
+			mergedGroups[mk] = m
+			mkeys = append(mkeys, mk)
 		}
+		m.variants = append(m.variants, g.cs.Mode+"/"+g.cs.Wrap)
+	}
+	sort.Strings(mkeys)
+	for _, mk := range mkeys {
+		m := mergedGroups[mk]
+		g := m.first
+		vs := "all"
+		if g.cs.Error == "nil" || strings.HasPrefix(g.cs.Error, "unknown:") {
+			if len(m.variants) != len(modes) {
+				vs = strings.Join(m.variants, ",")
+			}
+		} else if len(m.variants) != len(modes)*judged {
+			vs = strings.Join(m.variants, ",")
+		}
+		sig := fmt.Sprintf("c14:%s:%s:variants=%s:methods=%s", g.cs.Error, g.fails, vs, m.ms)
 		rep := g.cs
 		rep.Method = g.methods[0]
-		c.Violation(sig, fmt.Sprintf("node returns %s (%s) to the remote caller of %s [%d method(s)]: %s; caller sees %s", g.cs.Error, g.cs.Wrap, ms, len(g.methods), g.fails, g.sample), rep)
+		c.Violation(sig, fmt.Sprintf("node returns %s to the remote caller; variants (transport/wrap) %v; methods %s [%d]: %s; caller sees %s", g.cs.Error, m.variants, m.ms, len(g.methods), g.fails, g.sample), rep)
 	}
 	c.Set("evaluations", evals)
 	c.Set("modes", modes)
